@@ -76,6 +76,125 @@ func coqStrings(xs []string) string {
 	return "[" + strings.Join(qs, "; ") + "]"
 }
 
+// rootIdent returns the identifier an assignable expression is rooted in (x, x.f, x[i], *x ...)
+func rootIdent(e ast.Expr) *ast.Ident {
+	for {
+		switch t := e.(type) {
+		case *ast.Ident:
+			return t
+		case *ast.SelectorExpr:
+			e = t.X
+		case *ast.IndexExpr:
+			e = t.X
+		case *ast.StarExpr:
+			e = t.X
+		case *ast.ParenExpr:
+			e = t.X
+		default:
+			return nil
+		}
+	}
+}
+
+// writtenGlobals lists "<dir>:<var>@<func>" for every package-level var under root that is assigned
+// (=, op=, ++/--, through a field / index) inside a function other than init. go/parser resolves
+// identifiers within a file, so a local that shadows the global is not counted.
+func writtenGlobals(repo, root string) ([]string, error) {
+	byDir := map[string][]*ast.File{}
+	err := filepath.Walk(filepath.Join(repo, root), func(p string, info os.FileInfo, err error) error {
+		if err != nil || info.IsDir() || !strings.HasSuffix(p, ".go") || strings.HasSuffix(p, "_test.go") {
+			return err
+		}
+		src, err := os.ReadFile(p)
+		if err != nil {
+			return err
+		}
+		if strings.HasPrefix(string(src), "//go:build verif") {
+			return nil
+		}
+		rel, _ := filepath.Rel(repo, p)
+		_, f, err := parseFile(repo, rel)
+		if err != nil {
+			return err
+		}
+		byDir[filepath.Dir(rel)] = append(byDir[filepath.Dir(rel)], f)
+		return nil
+	})
+	if err != nil {
+		return nil, err
+	}
+	var out []string
+	for dir, files := range byDir {
+		globals := map[string]bool{}
+		for _, f := range files {
+			for _, d := range f.Decls {
+				if gd, ok := d.(*ast.GenDecl); ok && gd.Tok == token.VAR {
+					for _, sp := range gd.Specs {
+						for _, nm := range sp.(*ast.ValueSpec).Names {
+							if nm.Name != "_" {
+								globals[nm.Name] = true
+							}
+						}
+					}
+				}
+			}
+		}
+		for _, f := range files {
+			for _, d := range f.Decls {
+				fn, ok := d.(*ast.FuncDecl)
+				if !ok || fn.Body == nil || (fn.Recv == nil && fn.Name.Name == "init") {
+					continue
+				}
+				seen := map[string]bool{}
+				note := func(e ast.Expr) {
+					id := rootIdent(e)
+					if id == nil || !globals[id.Name] || seen[id.Name] {
+						return
+					}
+					// id.Obj is the file-local resolution: a package-level var resolves to a ValueSpec of a
+					// GenDecl at file scope or stays unresolved (declared in another file of the package)
+					if id.Obj != nil {
+						if vs, ok := id.Obj.Decl.(*ast.ValueSpec); ok {
+							top := false
+							for _, dd := range f.Decls {
+								if gd, ok := dd.(*ast.GenDecl); ok {
+									for _, sp := range gd.Specs {
+										if sp == ast.Spec(vs) {
+											top = true
+										}
+									}
+								}
+							}
+							if !top {
+								return
+							}
+						} else {
+							return
+						}
+					}
+					seen[id.Name] = true
+					out = append(out, dir+":"+id.Name+"@"+fn.Name.Name)
+				}
+				ast.Inspect(fn.Body, func(n ast.Node) bool {
+					switch t := n.(type) {
+					case *ast.AssignStmt:
+						if t.Tok != token.DEFINE {
+							for _, l := range t.Lhs {
+								note(l)
+							}
+						}
+					case *ast.IncDecStmt:
+						note(t.X)
+					}
+					return true
+				})
+			}
+		}
+	}
+	sort.Strings(out)
+	return out, nil
+}
+
 func init() {
 	register("SchedShape.v", func(repo string) (string, error) {
 		var b strings.Builder
@@ -274,6 +393,46 @@ func init() {
 		}
 		sort.Strings(outside)
 		fmt.Fprintf(&b, "Definition linter_errors_appended_outside_error : list string := %s.\n", coqStrings(outside))
+
+		// package-level variables of interpreter/..., ast, lexer, parser, token, resolver (what ServeHTTP runs) that are assigned inside a function other than init
+		// (state shared by several Interpreter values in one process, outside any interpreter's mutex)
+		var globals []string
+		for _, root := range []string{"interpreter", "ast", "lexer", "parser", "token", "resolver"} {
+			g, err := writtenGlobals(repo, root)
+			if err != nil {
+				return "", err
+			}
+			globals = append(globals, g...)
+		}
+		fmt.Fprintf(&b, "Definition globals_written_after_init : list string := %s.\n", coqStrings(globals))
+		// customLint: the goroutines fill results[idx] only; (*Linter).Error is not called inside a go statement
+		_, clf, err := parseFile(repo, "linter/custom_linter.go")
+		if err != nil {
+			return "", err
+		}
+		errorInGo := false
+		if cl := findMethod(clf, "Linter", "customLint"); cl != nil {
+			ast.Inspect(cl.Body, func(n ast.Node) bool {
+				gs, ok := n.(*ast.GoStmt)
+				if !ok {
+					return true
+				}
+				ast.Inspect(gs, func(m ast.Node) bool {
+					if ce, ok := m.(*ast.CallExpr); ok {
+						if se, ok := ce.Fun.(*ast.SelectorExpr); ok && se.Sel.Name == "Error" {
+							if id, ok := se.X.(*ast.Ident); ok && id.Name == recvName(cl) {
+								errorInGo = true
+							}
+						}
+					}
+					return true
+				})
+				return true
+			})
+		} else {
+			return "", fmt.Errorf("(*Linter).customLint not found")
+		}
+		fmt.Fprintf(&b, "Definition customlint_goroutines_call_error : bool := %v.\n", errorInGo)
 
 		// the per-plugin timeout of customLint: gocontext.WithTimeout(c, <n>*time.Second)
 		_, cf, err := parseFile(repo, "linter/custom_linter.go")
